@@ -1,4 +1,4 @@
-CONSTANTS MaxFacts = 3  MaxOps = 6  KeyKind = "canon"
+CONSTANTS MaxFacts = 3  MaxOps = 6  MemoDepth = 2  KeyKind = "canon"
 INIT Init
 NEXT Next
 CONSTRAINT Bound
